@@ -100,7 +100,17 @@ let lk8 side f =
       let (_, w), _ = unopt (run_ops true m sb_new (writer_of []) [ OWriteAll h1; OWriteAll h2 ]) in
       hexo w.w_received
 
+let tas side f =
+  let strip = List.nth f 0 = "never" in
+  let frags = List.map (fun h -> nlist (unhex h)) (String.split_on_char '/' (List.nth f 1)) in
+  match side with
+  | `Spec -> hexo (if strip then spec_strip (List.concat frags) else List.concat frags)
+  | `Model ->
+      let (_, w), _ = unopt (run_ops true (if strip then MStrip else MPass) sb_new (writer_of []) [ OWriteFmt frags ]) in
+      hexo w.w_received
+
 let () =
+  register "tas" tas;
   register "lk8" lk8;
   register "drvv" drvv;
   register "strm" strm;
